@@ -184,8 +184,10 @@ def _fingerprint(d):
 
 def _run_script(w, script, f_locals, ret_value, exc_value):
     """Deliver the script; returns failure signature or ''."""
-    frame = FakeFrame("/app/f.py", "fn", 0, f_locals, {"hg": 1}, FakeFrame("/app/main.py", "main", 1, {"m": 1}))
+    f_globals = {"hg": 1, "x": "module-level x", "limit": 100}     # note: `x` is also a local (shadowing)
+    frame = FakeFrame("/app/f.py", "fn", 0, f_locals, f_globals, FakeFrame("/app/main.py", "main", 1, {"m": 1}))
     before = _fingerprint(f_locals)
+    g_before = _fingerprint(f_globals)
     for (event, fn, line, argk) in script:
         frame.f_lineno = line
         arg = None
@@ -204,6 +206,8 @@ def _run_script(w, script, f_locals, ret_value, exc_value):
             return "C01:tracing-switched-off-for-the-frame"
         if _fingerprint(f_locals) != before:
             return "C01:application-locals-changed"
+        if [e for e in _fingerprint(f_globals) if e[0] != "__builtins__"] != g_before:
+            return "C01:application-module-globals-changed"
     return ""
 
 
@@ -248,7 +252,7 @@ def hostile(cfg: int, vk: int, ek: int, where: int, src: int) -> str:
     generators, non-str keys, invalid text, expressions that raise) in the locals, as the return value or as the raised
     exception, under 10 tracepoint configurations: nothing is raised into the application, tracing stays on, the
     application's data is untouched, and later benign hits still work.
-    PRE: 0 <= cfg <= 9 and 0 <= vk <= 32 and 0 <= ek <= 5 and 0 <= where <= 2 and 0 <= src <= 2
+    PRE: 0 <= cfg <= 9 and 0 <= vk <= 34 and 0 <= ek <= 5 and 0 <= where <= 2 and 0 <= src <= 2
     PRE: ek == 0 or vk in (16, 17, 18, 19, 20, 22)
     PRE: src == 0 or cfg in (6, 7)
     POST: _ == ""
@@ -375,11 +379,11 @@ def _mut_returns_none_on_error():
 MUTANTS = {"drop_action_guard": _mut_drop_action_guard, "returns_none_on_error": _mut_returns_none_on_error}
 
 CONDITIONS = [
-    dict(fn="hostile", cubes={"quick": ["cfg == %d and where == %d and src == 0 and vk in (0, 8, 12, 16, 17, 19, 20, 22, 29, 31)" % (c, wh) for c in range(10) for wh in range(3)] +
+    dict(fn="hostile", cubes={"quick": ["cfg == %d and where == %d and src == 0 and vk in (0, 8, 12, 16, 17, 19, 20, 22, 29, 31, 33)" % (c, wh) for c in range(10) for wh in range(3)] +
                                        ["cfg == %d and src == %d and vk == 0 and where == 0" % (c, s) for c in (6, 7) for s in (1, 2)],
                               "thorough": ["cfg == %d and where == %d and src == 0 and vk %s" % (c, wh, r) for c in range(10) for wh in range(3) for r in ("<= 10", "in (11,12,13,14,15,16)", "in (17,18,19)", "in (20,21,22)", ">= 23")] +
                                           ["cfg == %d and src == %d and vk == 0 and where == 0" % (c, s) for c in (6, 7) for s in (1, 2)]},
-         twins=["reach", "mutant:returns_none_on_error@cfg == 0 and where == 0 and src == 0 and vk in (0, 8, 12, 16, 17, 19, 20, 22, 29, 31)"],
+         twins=["reach", "mutant:returns_none_on_error@cfg == 0 and where == 0 and src == 0 and vk in (0, 8, 12, 16, 17, 19, 20, 22, 29, 31, 33)"],
          timeout={"quick": 240, "thorough": 900},
          bounds="10 tracepoint configurations (snapshot+condition+watches, log, metric, line span, method span, method capture, unnamed method stage, span:method "
                 "without name, two tracepoints on a line, all actions) x a script of 3-4 events x 10 (thorough 33) value kinds in the locals / as return value / as exception "
